@@ -30,6 +30,8 @@ mod stat;
 mod variations;
 mod vorg;
 mod vvar;
+#[cfg(googlefonts_fontations_verif)]
+pub mod verif_hooks;
 use gdef::CollectUsedMarkSets;
 use inc_bimap::IncBiMap;
 pub use parsing_util::{
